@@ -86,6 +86,26 @@ theorem ordinal_order (h : rf.yP = rf.yQ) :
   rw [h]
   constructor <;> omega
 
+theorem daysBefore_JG (y : Int) (m : Month) :
+    daysBefore (leap .gregorian y) m ≤ daysBefore (leap .julian y) m
+    ∧ daysBefore (leap .julian y) m ≤ daysBefore (leap .gregorian y) m + 1 := by
+  cases hg : leap .gregorian y
+  · cases leap .julian y <;> cases m <;> simp [daysBefore]
+  · rw [leapG_imp_leapJ _ hg]; omega
+
+/-- in a same-year gap no label is both a Julian-side and a Gregorian-side label -/
+theorem no_shared_label {y : Int} {m : Month} {d : Int} (hy1 : y = rf.yP) (hy2 : y = rf.yQ)
+    (a2 : daysBefore (leap .julian y) m + d ≤ rf.oP)
+    (b2 : rf.oQ ≤ daysBefore (leap .gregorian y) m + d) : False := by
+  subst hy1
+  have oo := (rf.ordinal_order hy2).1
+  rw [← hy2] at oo
+  have h1 := daysBefore_JG rf.yP m
+  have h2 := daysBefore_JG rf.yP rf.mQ
+  simp only [oQ] at b2
+  rw [← hy2] at b2
+  omega
+
 /-- the gap kind as a function of the labels -/
 theorem kind_eq :
     GapKind.forDates rf.yP rf.mP rf.yQ rf.mQ =
